@@ -28,74 +28,120 @@ theorem staysFailed_of_no_err {s : List Ev} (h : Ev.err ∉ s) : StaysFailed s :
 
 /-! ### ExactLen -/
 
+/-- A stream marked finished has nothing outstanding (holds for every reachable state: `finished`
+is set together with `remaining := 0` or when `remaining = 0`). -/
+def ExactLen.Ok (s : ExactLen) : Prop := s.finished = true → s.remaining = 0
+
+theorem ExactLen.ok_of_not_finished {s : ExactLen} (h : s.finished = false) : s.Ok := by
+  intro hf; rw [h] at hf; cases hf
+
+theorem ExactLen.poll_finished (s : ExactLen) (hf : s.finished = true) : s.poll = (s, .end_) := by
+  simp [ExactLen.poll, hf]
+
 theorem ExactLen.poll_data {s : ExactLen} {d : Bytes} (h : s.poll.2 = .data d) :
     d.length ≤ s.remaining ∧ s.poll.1.remaining = s.remaining - d.length ∧
-    ∃ rest, s.stream = .chunk d :: rest ∧ s.poll.1.stream = rest := by
+    (∃ rest, s.stream = .chunk d :: rest ∧ s.poll.1.stream = rest) ∧
+    s.finished = false ∧ s.poll.1.finished = false := by
   unfold ExactLen.poll at h ⊢
-  split at h
-  · split at h <;> simp at h
-  · simp at h
-  · simp at h
-  · rename_i bs rest hs
+  cases hf : s.finished
+  · simp only [hf, Bool.false_eq_true, if_false] at h ⊢
     split at h
-    · rename_i hle
-      simp at h; subst h
-      simp [hs, hle]
+    · split at h <;> simp at h
     · simp at h
+    · simp at h
+    · rename_i bs rest hs
+      split at h
+      · rename_i hle
+        simp at h; subst h
+        simp [hs, hle]
+      · simp at h
+  · simp [hf] at h
 
 theorem ExactLen.poll_remaining_le (s : ExactLen) : s.poll.1.remaining ≤ s.remaining := by
   unfold ExactLen.poll
-  split
-  · split <;> simp
+  cases hf : s.finished
+  · simp only [Bool.false_eq_true, if_false]
+    split
+    · split <;> simp
+    · simp
+    · simp
+    · split <;> simp <;> omega
   · simp
-  · simp
-  · split <;> simp <;> omega
 
-/-- A clean end is only ever reported with nothing outstanding and the inner stream
-exhausted. -/
-theorem ExactLen.poll_end {s : ExactLen} (h : s.poll.2 = .end_) :
-    s.remaining = 0 ∧ s.stream = [] ∧ s.poll.1 = s := by
+/-- A clean end is only ever reported with nothing outstanding; afterwards the stream is marked
+finished. -/
+theorem ExactLen.poll_end {s : ExactLen} (hok : s.Ok) (h : s.poll.2 = .end_) :
+    s.remaining = 0 ∧ s.poll.1.remaining = 0 ∧ s.poll.1.finished = true ∧
+    (s.finished = false → s.stream = []) := by
   unfold ExactLen.poll at h ⊢
-  split at h
-  · rename_i hs
+  cases hf : s.finished
+  · simp only [hf, Bool.false_eq_true, if_false] at h ⊢
     split at h
+    · rename_i hs
+      split at h
+      · simp at h
+      · rename_i hr; simp at hr; simp [hs, hr]
     · simp at h
-    · rename_i hr; simp at hr; simp [hs, hr]
-  · simp at h
-  · simp at h
-  · split at h <;> simp at h
+    · simp at h
+    · split at h <;> simp at h
+  · simp [hf, hok hf]
 
 theorem ExactLen.poll_pending {s : ExactLen} (h : s.poll.2 = .pending) :
-    s.poll.1.remaining = s.remaining ∧ ∃ rest, s.stream = .pending :: rest ∧ s.poll.1.stream = rest := by
+    s.poll.1.remaining = s.remaining ∧
+    (∃ rest, s.stream = .pending :: rest ∧ s.poll.1.stream = rest) ∧
+    s.finished = false ∧ s.poll.1.finished = false := by
   unfold ExactLen.poll at h ⊢
-  split at h
-  · split at h <;> simp at h
-  · rename_i rest hs; simp [hs]
-  · simp at h
-  · split at h <;> simp at h
+  cases hf : s.finished
+  · simp only [hf, Bool.false_eq_true, if_false] at h ⊢
+    split at h
+    · split at h <;> simp at h
+    · rename_i rest hs; simp [hs]
+    · simp at h
+    · split at h <;> simp at h
+  · simp [hf] at h
 
 theorem ExactLen.poll_not_panic (s : ExactLen) : s.poll.2 ≠ .panic ∧ s.poll.2 ≠ .diverge := by
   unfold ExactLen.poll
-  split
-  · split <;> simp
+  cases hf : s.finished
+  · simp only [Bool.false_eq_true, if_false]
+    split
+    · split <;> simp
+    · simp
+    · simp
+    · split <;> simp
   · simp
-  · simp
-  · split <;> simp
+
+/-- The invariant `Ok` is kept by every poll. -/
+theorem ExactLen.poll_keeps_ok (s : ExactLen) (hok : s.Ok) : s.poll.1.Ok := by
+  unfold ExactLen.poll
+  cases hf : s.finished
+  · simp only [Bool.false_eq_true, if_false]
+    split
+    · split
+      · intro _; rfl
+      · rename_i hr; simp at hr; intro _; exact hr
+    · intro h; simp at h
+    · intro h; simp at h
+    · split <;> (intro h; simp at h)
+  · simpa using hok
 
 /-- After an error the stream is fused: nothing outstanding. -/
 theorem ExactLen.poll_err {s : ExactLen} (hsf : StaysFailed s.stream)
     (h : s.poll.2.isErr = true) :
     (s.poll.2 = .errEntity ∧ s.poll.1.stream = []) ∨ s.poll.1.remaining = 0 := by
   unfold ExactLen.poll at h ⊢
-  split
-  · split
-    · right; rfl
-    · rename_i hs hr; simp [hs, hr, PollOut.isErr] at h
-  · rename_i hs; simp [hs, PollOut.isErr] at h
-  · rename_i rest hs; rw [hs] at hsf; left; simp [staysFailed_err hsf]
-  · split
-    · rename_i hs hle; simp [hs, hle, PollOut.isErr] at h
-    · right; rfl
+  cases hf : s.finished
+  · simp only [hf, Bool.false_eq_true, if_false] at h ⊢
+    split
+    · split
+      · right; rfl
+      · rename_i hs hr; simp [hs, hr, PollOut.isErr] at h
+    · rename_i hs; simp [hs, PollOut.isErr] at h
+    · rename_i rest hs; rw [hs] at hsf; left; simp [staysFailed_err hsf]
+    · split
+      · rename_i hs hle; simp [hs, hle, PollOut.isErr] at h
+      · right; rfl
+  · simp [hf, PollOut.isErr] at h
 
 end HS
 
@@ -125,7 +171,7 @@ def MInvAt (m : Multipart) : MPhase → Prop
   | .open_ i => m.cur = none ∧ m.state = 2 * i + 1 ∧ i < m.ranges.length ∧
       ∃ r, m.ranges[i]? = some r ∧ m.remaining = (r.2 - r.1) + m.rest (i + 1)
   | .body i => ∃ c, m.cur = some c ∧ m.state = 2 * i + 1 ∧ i < m.ranges.length ∧
-      m.remaining = c.remaining + m.rest (i + 1)
+      m.remaining = c.remaining + m.rest (i + 1) ∧ c.finished = false
   | .trailer => m.cur = none ∧ m.state = 2 * m.ranges.length ∧ m.remaining = kTrailer.length
   | .ended => m.cur = none ∧ m.state = 2 * m.ranges.length + 1 ∧ m.remaining = 0
 
@@ -227,33 +273,33 @@ namespace HS
 
 theorem step_body (m : Multipart) (hb : MInv m) (i : Nat) (h : MInvAt m (.body i)) (k : Nat) :
     MStepOk m (Multipart.pollF (k + 2) m).1 (Multipart.pollF (k + 2) m).2 := by
-  obtain ⟨c, hc, hs, hi, hr⟩ := h
+  obtain ⟨c, hc, hs, hi, hr, hcf⟩ := h
   have hb0 := hb
   obtain ⟨hlen, hsz, _⟩ := hb
   cases ho : c.poll.2 with
   | data d =>
-    obtain ⟨hle, hrem', _⟩ := ExactLen.poll_data ho
+    obtain ⟨hle, hrem', _, _, hcf'⟩ := ExactLen.poll_data ho
     have hle2 : d.length ≤ m.remaining := by omega
     have e : Multipart.pollF (k + 2) m =
         ({ m with cur := some c.poll.1, remaining := m.remaining - d.length }, .data d) := by
       simp only [Multipart.pollF, hc]
       simp [ho, subChk, hle2]
     rw [e]
-    refine ⟨⟨hlen, hsz, .body i, c.poll.1, rfl, hs, hi, ?_⟩, by simp, ?_, by simp,
+    refine ⟨⟨hlen, hsz, .body i, c.poll.1, rfl, hs, hi, ?_, hcf'⟩, by simp, ?_, by simp,
       by simp [PollOut.isErr], by simp, rfl⟩
     · simp only [Multipart.rest] at hr ⊢; rw [hrem', hr]; omega
     · intro d' hd; simp at hd; subst hd; simp only; omega
   | pending =>
-    obtain ⟨hrem', _⟩ := ExactLen.poll_pending ho
+    obtain ⟨hrem', _, _, hcf'⟩ := ExactLen.poll_pending ho
     have e : Multipart.pollF (k + 2) m = ({ m with cur := some c.poll.1 }, .pending) := by
       simp only [Multipart.pollF, hc]
       simp [ho]
     rw [e]
-    refine ⟨⟨hlen, hsz, .body i, c.poll.1, rfl, hs, hi, ?_⟩, by simp, by simp, by simp,
+    refine ⟨⟨hlen, hsz, .body i, c.poll.1, rfl, hs, hi, ?_, hcf'⟩, by simp, by simp, by simp,
       by simp [PollOut.isErr], by simp, rfl⟩
     simp only [Multipart.rest] at hr ⊢; rw [hrem', hr]
   | end_ =>
-    obtain ⟨hz, _, _⟩ := ExactLen.poll_end ho
+    obtain ⟨hz, _, _⟩ := ExactLen.poll_end (ExactLen.ok_of_not_finished hcf) ho
     have e : Multipart.pollF (k + 2) m =
         Multipart.pollF (k + 1) { m with cur := none, state := m.state + 1 } := by
       simp only [Multipart.pollF, hc]
@@ -324,7 +370,7 @@ theorem step_open (m : Multipart) (hb : MInv m) (i : Nat) (h : MInvAt m (.open_ 
     have hph2 : m2.partHeaders = m.partHeaders := by rw [hm2]
     have hinv : MInvAt m2 (.body i) := by
       refine ⟨{ stream := m.scripts.headD [], remaining := r.2 - r.1 }, by rw [hm2], by rw [hm2]; exact hs,
-        by rw [hrg2]; exact hi, ?_⟩
+        by rw [hrg2]; exact hi, ?_, rfl⟩
       rw [hrem2, hr]; simp only [Multipart.rest, hph2, hrg2]
     have st := step_body m2 ⟨by rw [hph2, hrg2]; exact hlen, by rw [hrg2]; exact hsz, .body i, hinv⟩ i hinv k
     refine ⟨st.inv, st.noPanic, fun d hd => by rw [← hrem2]; exact st.data d hd, ?_, st.err,
@@ -460,6 +506,7 @@ namespace HS
 
 def BInv : BodyS → Prop
   | .multi m => MInv m
+  | .exact e => e.Ok
   | _ => True
 
 def outs (tr : List (Nat × Bool × PollOut)) : List PollOut := tr.map (·.2.2)
@@ -473,7 +520,7 @@ structure BStepOk (b b' : BodyS) (o : PollOut) : Prop where
   noPanic : o ≠ .panic ∧ o ≠ .diverge
   data : ∀ d, o = .data d → b'.sizeHint + d.length = b.sizeHint
   pend : o = .pending → b'.sizeHint = b.sizeHint
-  end_ : o = .end_ → b' = b ∧ b.sizeHint = 0
+  end_ : o = .end_ → b'.sizeHint = 0 ∧ b.sizeHint = 0
   mono : b'.sizeHint ≤ b.sizeHint
 
 theorem BodyS.poll_ok (b : BodyS) (h : BInv b) : BStepOk b b.poll.1 b.poll.2 := by
@@ -486,7 +533,7 @@ theorem BodyS.poll_ok (b : BodyS) (h : BInv b) : BStepOk b b.poll.1 b.poll.2 := 
         intro d hd; simp [BodyS.poll] at hd; subst hd; simp [BodyS.poll, BodyS.sizeHint],
         by simp [BodyS.poll], by simp [BodyS.poll], by simp [BodyS.poll, BodyS.sizeHint]⟩
   | exact e =>
-    refine ⟨trivial, ?_, ?_, ?_, ?_, ?_⟩
+    refine ⟨ExactLen.poll_keeps_ok e h, ?_, ?_, ?_, ?_, ?_⟩
     · simpa [BodyS.poll] using ExactLen.poll_not_panic e
     · intro d hd
       simp only [BodyS.poll] at hd ⊢
@@ -497,8 +544,8 @@ theorem BodyS.poll_ok (b : BodyS) (h : BInv b) : BStepOk b b.poll.1 b.poll.2 := 
       exact (ExactLen.poll_pending hp).1
     · intro he
       simp only [BodyS.poll] at he ⊢
-      obtain ⟨h1, _, h3⟩ := ExactLen.poll_end he
-      exact ⟨by rw [h3], h1⟩
+      obtain ⟨h1, h3, _⟩ := ExactLen.poll_end h he
+      exact ⟨h3, h1⟩
     · simpa [BodyS.poll, BodyS.sizeHint] using ExactLen.poll_remaining_le e
   | multi m =>
     have st := Multipart.poll_ok m h
@@ -509,7 +556,7 @@ theorem BodyS.poll_ok (b : BodyS) (h : BInv b) : BStepOk b b.poll.1 b.poll.2 := 
     · intro he
       simp only [BodyS.poll] at he ⊢
       obtain ⟨h1, _, _, h4⟩ := st.end_ he
-      exact ⟨by rw [h1], h4⟩
+      exact ⟨by rw [h1]; exact h4, h4⟩
     · simp only [BodyS.poll, BodyS.sizeHint]
       cases ho : m.poll.2 with
       | data d => have := st.data d ho; omega
@@ -561,7 +608,7 @@ theorem run_clean_end_exact (n : Nat) (b : BodyS) (h : BInv b)
     | end_ =>
       obtain ⟨h1, h2⟩ := st.end_ ho
       have := run_delivered_le n b.poll.1 st.inv
-      have hh : b.poll.1.sizeHint = 0 := by rw [h1]; exact h2
+      have hh : b.poll.1.sizeHint = 0 := h1
       simp [PollOut.dataLen]; omega
     | data d =>
       have hd := st.data d ho
@@ -601,7 +648,12 @@ def PollOut.quiet (o : PollOut) : Prop := o ≠ .panic ∧ o ≠ .diverge ∧ o.
 
 theorem ExactLen.fused_step (e : ExactLen) (h : e.remaining = 0 ∨ e.stream = []) :
     (e.poll.1.remaining = 0 ∨ e.poll.1.stream = []) ∧ e.poll.2.quiet := by
+  cases hf : e.finished
+  case true =>
+    rw [ExactLen.poll_finished e hf]
+    exact ⟨h, by simp [PollOut.quiet, PollOut.dataLen]⟩
   unfold ExactLen.poll
+  simp only [hf, Bool.false_eq_true, if_false]
   rcases h with h | h
   · split
     · split
@@ -619,7 +671,7 @@ theorem ExactLen.fused_step (e : ExactLen) (h : e.remaining = 0 ∨ e.stream = [
     simp only
     split
     · exact ⟨Or.inl rfl, by simp [PollOut.quiet, PollOut.dataLen]⟩
-    · exact ⟨Or.inr h, by simp [PollOut.quiet, PollOut.dataLen]⟩
+    · exact ⟨Or.inr (by simp), by simp [PollOut.quiet, PollOut.dataLen]⟩
 
 theorem BodyS.fused_step (b : BodyS) (h : Fused b) : Fused b.poll.1 ∧ b.poll.2.quiet := by
   cases b with
@@ -641,8 +693,13 @@ theorem BodyS.fused_step (b : BodyS) (h : Fused b) : Fused b.poll.1 ∧ b.poll.2
     simp only [BodyS.poll, e]
     exact ⟨⟨hb, hc, hs, hr⟩, by simp [PollOut.quiet, PollOut.dataLen]⟩
 
-theorem ExactLen.poll_stream (s : ExactLen) : s.poll.1.stream = s.stream.tail := by
+theorem ExactLen.poll_stream (s : ExactLen) :
+    s.poll.1.stream = s.stream.tail ∨ s.poll.1.stream = s.stream := by
+  cases hf : s.finished
+  case true => rw [ExactLen.poll_finished s hf]; exact Or.inr rfl
+  left
   unfold ExactLen.poll
+  simp only [hf, Bool.false_eq_true, if_false]
   split
   · rename_i hs; split <;> simp [hs]
   · rename_i hs; simp [hs]
@@ -661,10 +718,12 @@ theorem BodyS.staysFailed_poll (b : BodyS) (h : b.StaysFailed) : b.poll.1.StaysF
   | once p => cases p <;> simp [BodyS.poll, BodyS.StaysFailed]
   | exact e =>
     simp only [BodyS.poll, BodyS.StaysFailed] at h ⊢
-    rw [ExactLen.poll_stream]
-    cases hs : e.stream with
-    | nil => exact staysFailed_nil
-    | cons x rest => rw [hs] at h; exact staysFailed_tail h
+    rcases ExactLen.poll_stream e with hp | hp
+    · rw [hp]
+      cases hs : e.stream with
+      | nil => exact staysFailed_nil
+      | cons x rest => rw [hs] at h; exact staysFailed_tail h
+    · rw [hp]; exact h
   | multi m => simp [BodyS.poll, BodyS.StaysFailed]
 
 theorem BodyS.ofPlan_staysFailed {p : Plan} {scripts : List (List Ev)} {b : BodyS}
@@ -695,8 +754,8 @@ theorem BodyS.terminal_fuses (b : BodyS) (h : BInv b) (hsf : b.StaysFailed)
     simp only [BodyS.poll, Fused] at ht ⊢
     cases ho : e.poll.2 with
     | end_ =>
-      obtain ⟨h1, _, h3⟩ := ExactLen.poll_end ho
-      rw [h3]; exact Or.inl h1
+      obtain ⟨_, h3, _⟩ := ExactLen.poll_end h ho
+      exact Or.inl h3
     | errEntity | errShort _ | errLong _ =>
       rcases ExactLen.poll_err (s := e) hsf (by simp [ho, PollOut.isErr]) with ⟨_, h⟩ | h
       · exact Or.inr h
@@ -737,4 +796,122 @@ theorem run_quiet_after_terminal (n : Nat) (b : BodyS) (h : BInv b) (hsf : b.Sta
     exact ⟨fun ht => run_fused_quiet n b.poll.1 (b.terminal_fuses h hsf ht),
       ih b.poll.1 st.inv (b.staysFailed_poll hsf)⟩
 
+end HS
+
+/-! ### (F13) an entity's stream is never polled after its end -/
+
+namespace HS.Overpoll
+
+/-- Once the entity's stream has reported its end the wrapper is marked finished, and the
+stream has never been polled after its end. -/
+def EInv (s : ExactLen) : Prop := (s.innerEnded = true → s.finished = true) ∧ s.overpolls = 0
+
+theorem EInv.default (st : List Ev) (r : Nat) : EInv { stream := st, remaining := r } :=
+  ⟨(by simp), rfl⟩
+
+theorem EInv.poll {s : ExactLen} (h : EInv s) : EInv s.poll.1 := by
+  obtain ⟨h1, h2⟩ := h
+  cases hf : s.finished
+  case true => rw [ExactLen.poll_finished s hf]; exact ⟨h1, h2⟩
+  have hie : s.innerEnded = false := by
+    cases hi : s.innerEnded
+    · rfl
+    · rw [h1 hi] at hf; cases hf
+  unfold ExactLen.poll
+  simp only [hf, Bool.false_eq_true, if_false]
+  split
+  · split <;> exact ⟨fun _ => rfl, by simp [hie, h2]⟩
+  · exact ⟨by simp [hie], h2⟩
+  · exact ⟨by simp [hie], h2⟩
+  · split <;> exact ⟨by simp [hie], h2⟩
+
+def MOk (m : Multipart) : Prop := ∀ c, m.cur = some c → EInv c
+
+theorem MOk.pollF (fuel : Nat) : ∀ m, MOk m → MOk (Multipart.pollF fuel m).1 := by
+  induction fuel with
+  | zero => intro m h; exact h
+  | succ fuel ih =>
+    intro m h
+    unfold Multipart.pollF
+    simp only
+    have hnone : ∀ m' : Multipart, m'.cur = none → MOk m' := by
+      intro m' h' c hc; rw [h'] at hc; cases hc
+    have hsome : ∀ (m' : Multipart) c', m'.cur = some c' → EInv c' → MOk m' := by
+      intro m' c' h' hc' c hc; rw [h'] at hc; cases hc; exact hc'
+    split
+    · rename_i c hc
+      have hc' := (h c hc).poll
+      split
+      · split
+        · exact hsome _ _ rfl hc'
+        · exact h
+      · exact ih _ (hnone _ rfl)
+      · exact hsome _ _ rfl hc'
+      · exact hnone _ rfl
+    · rename_i hcur
+      split
+      · split <;> exact h
+      · split
+        · split
+          · exact hnone _ hcur
+          · exact h
+        · split
+          · split
+            · exact h
+            · split
+              · exact h
+              · exact ih _ (hsome _ _ rfl (EInv.default _ _))
+          · split
+            · exact h
+            · split
+              · exact hnone _ hcur
+              · exact h
+
+def BOk : BodyS → Prop
+  | .once _ => True
+  | .exact e => EInv e
+  | .multi m => MOk m
+
+theorem BOk.poll {b : BodyS} (h : BOk b) : BOk b.poll.1 := by
+  cases b with
+  | once p => cases p <;> trivial
+  | exact e => exact EInv.poll h
+  | multi m => exact MOk.pollF 4 m h
+
+theorem BOk.after (n : Nat) : ∀ {b : BodyS}, BOk b → BOk (BodyS.after n b) := by
+  induction n with
+  | zero => intro b h; exact h
+  | succ n ih => intro b h; exact ih h.poll
+
+theorem BOk.overpolls {b : BodyS} (h : BOk b) : b.overpolls = 0 := by
+  cases b with
+  | once p => rfl
+  | exact e => exact h.2
+  | multi m =>
+    simp only [BodyS.overpolls]
+    cases hc : m.cur with
+    | none => rfl
+    | some c => exact (h c hc).2
+
+theorem BOk.ofPlan {p : Plan} {scripts : List (List Ev)} {b : BodyS}
+    (hb : BodyS.ofPlan p scripts = .ok b) : BOk b := by
+  cases p with
+  | once n => simp [BodyS.ofPlan] at hb; subst hb; trivial
+  | empty => simp [BodyS.ofPlan] at hb; subst hb; trivial
+  | multipart phs ranges len =>
+    simp [BodyS.ofPlan] at hb; subst hb
+    intro c hc; simp [Multipart.new] at hc
+  | exact a c =>
+    simp only [BodyS.ofPlan, bind, R.bind] at hb
+    cases hn : subChk c a with
+    | panic => simp [hn] at hb
+    | ok n => simp [hn, pure] at hb; subst hb; exact EInv.default _ _
+
+end HS.Overpoll
+
+namespace HS
+/-- A body made from a plan never polls an entity's stream after that stream's end. -/
+theorem after_overpolls_zero {p : Plan} {scripts : List (List Ev)} {b : BodyS}
+    (hb : BodyS.ofPlan p scripts = .ok b) (n : Nat) : (BodyS.after n b).overpolls = 0 :=
+  ((Overpoll.BOk.ofPlan hb).after n).overpolls
 end HS
